@@ -3,6 +3,7 @@ import FitModel.GoPrelude
 Lemmas about the run-time support of generated code (`FitModel/GoPrelude.lean`) and about the shape Lean's `do` notation
 gives to the loops the translator emits. Used by the agreement theorems `FitProps/Go2Lean*.lean`.
 -/
+set_option linter.unusedSimpArgs false  -- spare lemmas keep the proofs stable under harmless rewrites of the source
 namespace Fit.Go2Lean
 
 /-- a `for x in l do s := f s x` loop in the `Option` monad that never panics is a left fold -/
@@ -18,6 +19,11 @@ theorem forIn_id_yield {α β : Type} (l : List α) (f : β → α → β) (s : 
   induction l generalizing s with
   | nil => rfl
   | cons a l ih => simp [ih]
+
+/-! `Id.run do …` (the shape of a translated function that cannot panic): `Id α` is `α` -/
+theorem id_run {α} (x : Id α) : Id.run x = x := rfl
+theorem id_pure {α} (a : α) : (pure a : Id α) = a := rfl
+theorem id_bind {α β} (x : Id α) (f : α → Id β) : x >>= f = f x := rfl
 
 @[simp] theorem idx_eq {α} (l : List α) (i : Nat) : Go.idx l i = l[i]? := rfl
 
